@@ -44,7 +44,9 @@ BUILD/TEST ENVIRONMENT (no network):
   inside a private network namespace:
      unshare -rn sh -c 'ip link set lo up; export GOFLAGS=-mod=mod GOPROXY=off; cd {wt} && go test -vet=off -count=1 -timeout 25m ./server 2>&1 | tail -40'
   The ./server suite takes 5-12 minutes. A few of its tests are timing-sensitive; if a test fails with your change, re-run that single test
-  without your change (git stash) to see whether it is flaky on its own before drawing conclusions.
+  without your change to see whether it is flaky on its own before drawing conclusions. NEVER use `git stash` (the stash is shared by all
+  worktrees of the repository and other jobs use it): save your change with `git diff > /some/file`, undo it with `git checkout -- .`,
+  bring it back with `git apply /some/file`.
   Always give commands an explicit timeout; never leave a hanging process behind.
 
 FOR EACH CHANGE i (1..{n}) deliver a directory {root}/{pid}/m<i>/ containing:
